@@ -1,9 +1,15 @@
-(* Props/C06.v -- property C06 (arithmetic part; the enumeration theorems are being added) *)
-From Coq Require Import NArith ZArith List.
-From RP Require Import Gen.GenStreet Model.Codec Spec.SpecCombs.
+(* Props/C06.v -- property C06: the exhaustive iterators (src/cards/hands.rs, observations.rs,
+   isomorphisms.rs, Observation::children) yield every hand / observation exactly once, in increasing
+   order, without overflow; the published per-street counts equal the counting formulas.
+   Statements use only Base/ Gen/ Model/ Spec/ definitions; proofs live in Proofs/C06_*.v. *)
+From Coq Require Import NArith ZArith List Bool Sorted.
+From RP Require Import Base.Bits Gen.GenStreet Gen.GenPerm Model.Codec Model.Evaluator Model.Iso Model.Hands.
+From RP Require Import Spec.SpecCodec Spec.SpecIso Spec.SpecIsoWf Spec.SpecCombs Spec.SpecIter.
+From RP Require Proofs.C06_Hands Proofs.C06_Main Proofs.C06_Count Proofs.C06_Obs Proofs.C06_ObsSpec Proofs.C06_Examples.
 Import ListNotations.
 Open Scope N_scope.
 
+(* ================= A. arithmetic: the published constants ================= *)
 Definition zs (l : list (option Z)) : list N := flat_map (fun o => match o with Some z => [Z.to_N z] | None => [] end) l.
 (* the library's published per-street constants equal the counting formulas and Burnside's lemma *)
 Theorem C06_observation_counts :
@@ -22,3 +28,270 @@ Theorem C06_children_counts :
   [n_children Short 2 3; n_children Short 5 1; n_children Short 6 1] = zs N_CHILDREN_SHORT.
 Proof. split; vm_compute; reflexivity. Qed.
 Print Assumptions C06_children_counts.
+
+(* ================= 1. HandIterator::permute is the colex successor ================= *)
+(* x = 0^a 1^(b+1) 0 r (from the least significant bit)  |->  1^b 0^(a+1) 1 r ; no overflow branch fires *)
+Theorem C06_permute_succ : forall a b r,
+  2 ^ a * (2 ^ (b + 1) - 1) + 2 ^ (a + b + 2) * r < 2 ^ 63 ->
+  permute_next (2 ^ a * (2 ^ (b + 1) - 1) + 2 ^ (a + b + 2) * r)
+  = Some ((2 ^ b - 1) + 2 ^ (a + b + 1) + 2 ^ (a + b + 2) * r).
+Proof. exact C06_Main.C06_permute_succ. Qed.
+Print Assumptions C06_permute_succ.
+Example C06_permute_succ_hyp :
+  2 ^ 1 * (2 ^ (1 + 1) - 1) + 2 ^ (1 + 1 + 2) * 1 = 22 /\ 22 < 2 ^ 63 /\ 0 < 22 /\
+  permute_next 22 = Some 25 /\ (2 ^ 1 - 1) + 2 ^ (1 + 1 + 1) + 2 ^ (1 + 1 + 2) * 1 = 25.
+Proof. exact C06_Examples.ex_permute. Qed.
+
+(* the same for any 64-bit word whose block of ones is not the topmost one *)
+Theorem C06_permute_succ_wide : forall a b r,
+  a + b + 2 <= 64 -> 2 ^ a * (2 ^ (b + 1) - 1) + 2 ^ (a + b + 2) * r < 2 ^ 64 ->
+  permute_next (2 ^ a * (2 ^ (b + 1) - 1) + 2 ^ (a + b + 2) * r)
+  = Some ((2 ^ b - 1) + 2 ^ (a + b + 1) + 2 ^ (a + b + 2) * r).
+Proof. exact C06_Main.C06_permute_succ_wide. Qed.
+Print Assumptions C06_permute_succ_wide.
+
+(* every positive number has that shape, so C06_permute_succ covers every 0 < x < 2^63 *)
+Theorem C06_permute_shape_exists : forall x, 0 < x ->
+  exists a b r, x = 2 ^ a * (2 ^ (b + 1) - 1) + 2 ^ (a + b + 2) * r.
+Proof. exact C06_Main.C06_shape_exists. Qed.
+Print Assumptions C06_permute_shape_exists.
+
+(* the result is the NEXT larger word with the same number of bits; it still fits 64 bits *)
+Theorem C06_permute_next_least : forall x, 0 < x -> x < 2 ^ 63 ->
+  exists y, permute_next x = Some y /\ x < y /\ y < 2 ^ 64 /\ popcount64 y = popcount64 x /\
+            forall z, x < z -> z < y -> popcount64 z <> popcount64 x.
+Proof. exact C06_Main.C06_permute_next_least. Qed.
+Print Assumptions C06_permute_next_least.
+
+(* permute() on the empty word underflows (x - 1): the iterator must never call it with 0 *)
+Theorem C06_permute_zero : permute_next 0 = None.
+Proof. exact C06_Main.C06_permute_zero. Qed.
+Print Assumptions C06_permute_zero.
+
+(* ================= 2. fuel ================= *)
+(* a loop that says Go n times and then Stop/Crash is computed exactly by repeat_until, given n < fuel *)
+Theorem C06_fuel : forall (A : Type) (step : A -> outcome A) fuel a n r,
+  reaches step a n r -> N.of_nat n < Npos fuel -> repeat_until fuel step a = r.
+Proof. exact C06_Main.C06_fuel. Qed.
+Print Assumptions C06_fuel.
+Example C06_fuel_hyp : reaches (advance_step 4) 11 2 (Stop 19) /\ N.of_nat 2 < Npos big_fuel.
+Proof. exact C06_Examples.ex_reaches. Qed.
+
+(* advance(): the words strictly increase and stay <= 2^52 * (2^k - 1) < 2^60 = big_fuel, so the loop
+   ends (without overflow) at the least larger k-bit word disjoint from the mask *)
+Theorem C06_advance_spec : forall k m x, 1 <= k -> k <= 8 -> m < 2 ^ 52 ->
+  popcount64 x = k -> x < 2 ^ 52 * (2 ^ k - 1) ->
+  exists n y, reaches (advance_step m) x n (Stop y) /\ N.of_nat n < Npos big_fuel /\
+    advance (mkHiter x m) = Some (mkHiter y m) /\
+    x < y /\ y <= 2 ^ 52 * (2 ^ k - 1) /\ popcount64 y = k /\ N.land y m = 0 /\
+    (forall z, x < z -> z < y -> popcount64 z = k -> N.land z m <> 0).
+Proof. exact C06_Main.C06_advance_spec. Qed.
+Print Assumptions C06_advance_spec.
+Example C06_advance_spec_hyp : 1 <= 3 /\ 3 <= 8 /\ 4 < 2 ^ 52 /\ popcount64 11 = 3 /\ 11 < 2 ^ 52 * (2 ^ 3 - 1).
+Proof. exact C06_Examples.ex_advance_hyp. Qed.
+
+(* ================= 3. the hand iterator ================= *)
+(* what the specification list is: exactly the k-card hands made of free cards ... *)
+Theorem C06_spec_hands_in : forall d mask k z,
+  In z (spec_hands d k mask) <-> (popcount64 z = N.of_nat k /\ N.land z (free_cards d mask) = z).
+Proof. exact C06_Main.C06_spec_hands_in. Qed.
+Print Assumptions C06_spec_hands_in.
+(* ... in strictly increasing order, hence without repeats ... *)
+Theorem C06_hands_sorted : forall d k mask, StronglySorted N.lt (spec_hands d k mask).
+Proof. exact C06_Main.C06_hands_sorted. Qed.
+Print Assumptions C06_hands_sorted.
+Theorem C06_hands_nodup : forall d k mask, NoDup (spec_hands d k mask).
+Proof. exact C06_Main.C06_hands_nodup. Qed.
+Print Assumptions C06_hands_nodup.
+(* ... and there are (free cards choose k) of them *)
+Theorem C06_hands_count : forall d k mask,
+  N.of_nat (length (spec_hands d k mask)) = choose (n_free d mask) k.
+Proof. exact C06_Main.C06_hands_count. Qed.
+Print Assumptions C06_hands_count.
+Theorem C06_n_free : forall d mask, N.land mask (hand_mask d) = mask ->
+  n_free d mask = (deck_size d - N.to_nat (hand_size mask))%nat.
+Proof. exact C06_Count.n_free_eq. Qed.
+Print Assumptions C06_n_free.
+
+(* HandIterator::from((k, mask)) followed by next() until None yields exactly that list *)
+Theorem C06_hands_enum : forall d k mask, (1 <= k <= 7)%nat -> N.land mask (hand_mask d) = mask ->
+  exists it, hand_iter d (N.of_nat k) mask = Some it /\
+             hands_all d it (spec_hands d k mask) /\
+             hands_take (S (length (spec_hands d k mask))) d it = Some (spec_hands d k mask).
+Proof. exact C06_Main.C06_hands_enum. Qed.
+Print Assumptions C06_hands_enum.
+Example C06_hands_enum_hyp :
+  (1 <= 2 <= 7)%nat /\ N.land 15 (hand_mask Standard) = 15 /\ N.land 983040 (hand_mask Short) = 983040.
+Proof. exact C06_Examples.ex_mask_hyp. Qed.
+
+(* hands_all is functional (a complete run is unique) and determines hands_take *)
+Theorem C06_hands_all_unique : forall d it l l', hands_all d it l -> hands_all d it l' -> l = l'.
+Proof. exact C06_Hands.hands_all_deterministic. Qed.
+Print Assumptions C06_hands_all_unique.
+Theorem C06_hands_all_take : forall d it l, hands_all d it l ->
+  forall limit, (length l < limit)%nat -> hands_take limit d it = Some l.
+Proof. exact C06_Hands.hands_all_take. Qed.
+Print Assumptions C06_hands_all_take.
+
+(* no call of next() panics, however many items are requested: the 12 bit positions above the deck
+   make room for the final successor *)
+Theorem C06_hands_no_overflow : forall d k mask, (1 <= k <= 7)%nat -> N.land mask (hand_mask d) = mask ->
+  exists it, hand_iter d (N.of_nat k) mask = Some it /\ forall limit, hands_take limit d it <> None.
+Proof. exact C06_Main.C06_hands_no_overflow. Qed.
+Print Assumptions C06_hands_no_overflow.
+
+(* the unit tests of hands.rs *)
+Theorem C06_test_choose_3 :
+  C06_Examples.take_from Standard 3 0 10 = Some [7; 11; 13; 14; 19; 21; 22; 25; 26; 28].
+Proof. exact C06_Examples.test_choose_3. Qed.
+Print Assumptions C06_test_choose_3.
+Theorem C06_test_choose_3_from_5 :
+  C06_Examples.take_from Standard 3 C06_Examples.mask_3_from_5 11 = Some [25; 41; 49; 56; 73; 81; 88; 97; 104; 112] /\
+  spec_hands Standard 3 C06_Examples.mask_3_from_5 = [25; 41; 49; 56; 73; 81; 88; 97; 104; 112] /\
+  N.land C06_Examples.mask_3_from_5 (hand_mask Standard) = C06_Examples.mask_3_from_5.
+Proof. exact C06_Examples.test_choose_3_from_5. Qed.
+Print Assumptions C06_test_choose_3_from_5.
+Theorem C06_test_counts :
+  C06_Examples.take_from Standard 0 0 5 = Some [] /\ C06_Examples.take_from Standard 0 15 5 = Some [] /\
+  option_map (@length N) (C06_Examples.take_from Standard 1 0 2000) = Some 52%nat /\
+  option_map (@length N) (C06_Examples.take_from Short 1 0 2000) = Some 36%nat /\
+  option_map (@length N) (C06_Examples.take_from Standard 2 0 2000) = Some 1326%nat /\
+  option_map (@length N) (C06_Examples.take_from Standard 1 15 2000) = Some 48%nat /\
+  option_map (@length N) (C06_Examples.take_from Standard 2 15 2000) = Some 1128%nat.
+Proof. exact C06_Examples.test_counts. Qed.
+Print Assumptions C06_test_counts.
+Theorem C06_test_choose_2_shortdeck : C06_Examples.take_from Short 2 0 1 = Some [196608].
+Proof. exact C06_Examples.test_choose_2_shortdeck. Qed.
+Print Assumptions C06_test_choose_2_shortdeck.
+
+(* ================= 4. k = 0 (known finding D4) ================= *)
+Theorem C06_hands_k0 : forall d mask, N.land mask (hand_mask d) = mask ->
+  exists it, hand_iter d 0 mask = Some it /\ hand_next d it = Some None.
+Proof. exact C06_Main.C06_hands_k0. Qed.
+Print Assumptions C06_hands_k0.
+(* the iterator for zero cards yields NOTHING, although there is exactly one hand of zero cards *)
+Theorem C06_k0_finding : forall d mask, N.land mask (hand_mask d) = mask ->
+  (exists it, hand_iter d 0 mask = Some it /\ hands_all d it []) /\ spec_hands d 0 mask = [0].
+Proof. exact C06_Main.C06_k0_finding. Qed.
+Print Assumptions C06_k0_finding.
+
+(* ================= 5. Observation::children ================= *)
+(* the hand iterator over (n_revealed, pocket | public) yields every set of n_revealed unseen cards once;
+   there are n_children of them and each extends the board to a valid observation *)
+Theorem C06_children_enum : forall d o s n,
+  wf_obs_d d o -> obs_street o = Some s -> n_revealed_of s = Some n ->
+  let removed := N.lor (pocket o) (public o) in
+  let l := spec_hands d (N.to_nat n) removed in
+  exists it, hand_iter d n removed = Some it /\ hands_all d it l /\
+    N.of_nat (length l) = n_children d (N.to_nat (hand_size (pocket o) + hand_size (public o))) (N.to_nat n) /\
+    Forall (fun h => hand_add (public o) h = Some (N.lor (public o) h) /\
+                     obs_from_parts (pocket o) (N.lor (public o) h) = Some (mkObs (pocket o) (N.lor (public o) h)) /\
+                     N.land h removed = 0 /\ hand_size h = n) l.
+Proof. exact C06_Count.children_enum. Qed.
+Print Assumptions C06_children_enum.
+Example C06_children_enum_hyp :
+  wf_obs_d Standard C06_Examples.ex_flop /\ obs_street C06_Examples.ex_flop = Some 1%Z /\ n_revealed_of 1 = Some 1.
+Proof. exact C06_Examples.ex_flop_hyp. Qed.
+
+(* ================= 6. the observation iterator ================= *)
+(* ObservationIterator::from(street) followed by next() until None yields exactly spec_obs *)
+Theorem C06_obs_enum : forall d s, (0 <= s <= 3)%Z ->
+  exists it, obs_iter d s = Some it /\ obs_all d it (spec_obs d s) /\
+    (forall limit, (length (spec_obs d s) < limit)%nat -> obs_take limit d it = Some (spec_obs d s)) /\
+    (forall limit, obs_take limit d it <> None).
+Proof.
+  intros d s Hs. destruct (C06_Obs.obs_enum d s Hs) as (it & E & Hall).
+  exists it. split; [exact E|]. split; [exact Hall|]. split.
+  - exact (C06_ObsSpec.obs_all_take d it _ Hall).
+  - intros limit. destruct (Nat.lt_ge_cases (length (spec_obs d s)) limit) as [H | H].
+    + rewrite (C06_ObsSpec.obs_all_take d it _ Hall limit H). discriminate.
+    + rewrite (C06_ObsSpec.obs_all_take_prefix d it _ Hall limit H). discriminate.
+Qed.
+Print Assumptions C06_obs_enum.
+Example C06_obs_enum_hyp : (0 <= 2 <= 3)%Z.
+Proof. exact C06_Examples.ex_street_hyp. Qed.
+Theorem C06_obs_all_unique : forall d it l l', obs_all d it l -> obs_all d it l' -> l = l'.
+Proof. exact C06_ObsSpec.obs_all_deterministic. Qed.
+Print Assumptions C06_obs_all_unique.
+(* spec_obs is: every well-formed observation of the street, each exactly once; their number *)
+Theorem C06_obs_spec_in : forall d s o, (0 <= s <= 3)%Z ->
+  (In o (spec_obs d s) <-> (wf_obs_d d o /\ hand_size (public o) = n_observed s)).
+Proof. exact C06_ObsSpec.spec_obs_in. Qed.
+Print Assumptions C06_obs_spec_in.
+Theorem C06_obs_nodup : forall d s, NoDup (spec_obs d s).
+Proof. exact C06_ObsSpec.spec_obs_NoDup. Qed.
+Print Assumptions C06_obs_nodup.
+Theorem C06_obs_count : forall d s,
+  N.of_nat (length (spec_obs d s)) = n_observations d (N.to_nat (n_observed s)).
+Proof. exact C06_ObsSpec.spec_obs_length. Qed.
+Print Assumptions C06_obs_count.
+(* pre-flop: the inner iterator has k = 0 and yields nothing; one observation per pocket, empty board *)
+Theorem C06_obs_pref : forall d, spec_obs d 0 = map (fun p => mkObs p 0) (spec_hands d 2 0).
+Proof. exact C06_Obs.spec_obs_pref. Qed.
+Print Assumptions C06_obs_pref.
+Theorem C06_obs_examples :
+  C06_Examples.obs_take_from Standard 1 3 = Some [mkObs 3 28; mkObs 3 44; mkObs 3 52] /\
+  C06_Examples.obs_take_from Short 2 2 = Some [mkObs 196608 3932160; mkObs 196608 6029312] /\
+  C06_Examples.obs_take_from Standard 0 2000 = Some (spec_obs Standard 0) /\
+  C06_Examples.obs_take_from Short 0 2000 = Some (spec_obs Short 0) /\
+  length (spec_obs Standard 0) = 1326%nat /\ length (spec_obs Short 0) = 630%nat.
+Proof.
+  exact (conj C06_Examples.ex_obs_flop (conj C06_Examples.ex_obs_turn_short C06_Examples.ex_obs_pref)).
+Qed.
+Print Assumptions C06_obs_examples.
+
+(* ================= 7. the isomorphism iterator ================= *)
+(* filtering the observation sequence by is_canonical yields every canonical observation of the street once *)
+Theorem C06_iso_enum : forall d s o, (0 <= s <= 3)%Z ->
+  (In o (iso_filter d (spec_obs d s)) <->
+   (wf_obs_d d o /\ hand_size (public o) = n_observed s /\ is_canonical d o = true)).
+Proof. exact C06_ObsSpec.iso_filter_in. Qed.
+Print Assumptions C06_iso_enum.
+Theorem C06_iso_nodup : forall d s, NoDup (iso_filter d (spec_obs d s)).
+Proof. exact C06_ObsSpec.iso_filter_NoDup. Qed.
+Print Assumptions C06_iso_nodup.
+
+(* exactly one representative per suit-isomorphism class, GIVEN the facts of property C05.
+   The hypotheses are verbatim the statements of C05_faithful, C05_permute_is_relabel,
+   C05_isomorphic_iff_same_canon, C05_idem, C05_is_canonical_iff (Props/C05.v) and of
+   relabel_hand_size (Proofs/C05_Bits.v); instantiate them with those theorems. *)
+Section C06_with_C05.
+Hypothesis H_C05_faithful : forall d o, wf_obs_d d o ->
+  exists p c, In p EXHAUST /\ canon d o = Some c /\ c = relabel_obs p o.
+Hypothesis H_C05_permute_is_relabel : forall d p o, In p EXHAUST -> wf_obs_d d o ->
+  permute d p o = Some (relabel_obs p o) /\ wf_obs_d d (relabel_obs p o).
+Hypothesis H_C05_isomorphic_iff_same_canon : forall d o1 o2, wf_obs_d d o1 -> wf_obs_d d o2 ->
+  (isomorphic o1 o2 = true <-> canon d o1 = canon d o2).
+Hypothesis H_C05_idem : forall d o c, wf_obs_d d o -> canon d o = Some c ->
+  canon d c = Some c /\ is_canonical d c = true.
+Hypothesis H_C05_is_canonical_iff : forall d o, wf_obs_d d o ->
+  (is_canonical d o = true <-> canon d o = Some o).
+Hypothesis H_C05_relabel_hand_size : forall p h, In p EXHAUST -> h < 2 ^ 52 ->
+  hand_size (relabel_hand p h) = hand_size h.
+
+Theorem C06_iso_representative : forall d s o, (0 <= s <= 3)%Z ->
+  wf_obs_d d o -> hand_size (public o) = n_observed s ->
+  exists c, (In c (iso_filter d (spec_obs d s)) /\ isomorphic o c = true) /\
+            forall c', In c' (iso_filter d (spec_obs d s)) -> isomorphic o c' = true -> c' = c.
+Proof.
+  exact (C06_ObsSpec.iso_representative H_C05_faithful H_C05_permute_is_relabel
+           H_C05_isomorphic_iff_same_canon H_C05_idem H_C05_is_canonical_iff H_C05_relabel_hand_size).
+Qed.
+End C06_with_C05.
+Print Assumptions C06_iso_representative.
+Example C06_iso_representative_hyp :
+  wf_obs_d Standard (mkObs 3 0) /\ hand_size (public (mkObs 3 0)) = n_observed 0.
+Proof. exact C06_Examples.ex_pref_obs_hyp. Qed.
+
+(* the section above instantiated with the C05 theorems: exactly one representative per suit-equivalence class *)
+From RP Require Props.C05 Proofs.C05_Bits.
+Theorem C06_iso_one_per_class : forall d s o, (0 <= s <= 3)%Z ->
+  wf_obs_d d o -> hand_size (public o) = n_observed s ->
+  exists c, (In c (iso_filter d (spec_obs d s)) /\ isomorphic o c = true) /\
+            forall c', In c' (iso_filter d (spec_obs d s)) -> isomorphic o c' = true -> c' = c.
+Proof.
+  exact (C06_iso_representative C05.C05_faithful C05.C05_permute_is_relabel
+           C05.C05_isomorphic_iff_same_canon C05.C05_idem C05.C05_is_canonical_iff
+           C05_Bits.relabel_hand_size).
+Qed.
+Print Assumptions C06_iso_one_per_class.
